@@ -458,6 +458,11 @@ func init() {
 		m.Stdout(r)
 		return nAndNil(m, len(r.B))
 	})
+	// package log: output goes to the process's standard error (content abstracted: only that the
+	// call returns, without touching program state, matters to the harnesses)
+	for _, n := range []string{"log.Print", "log.Printf", "log.Println"} {
+		reg(n, func(m *Machine, fn *ssa.Function, a []Value) Value { return nil })
+	}
 	reg("errors.New", func(m *Machine, fn *ssa.Function, a []Value) Value { return m.mkError(a[0].(Str), nil) })
 	reg("github.com/pkg/errors.New", func(m *Machine, fn *ssa.Function, a []Value) Value { return m.mkError(a[0].(Str), nil) })
 	reg("github.com/pkg/errors.Errorf", func(m *Machine, fn *ssa.Function, a []Value) Value {
